@@ -2,6 +2,8 @@ package compose
 
 import (
 	"context"
+
+	"github.com/cloudwego/eino/schema"
 )
 
 // C11: graph state is per run and accessed under mutual exclusion.
@@ -39,7 +41,7 @@ func (m *c11Mon) section(s *c11State, add int, yield bool) {
 }
 
 // (1) mutual exclusion and no lost update with parallel nodes, in Pregel / DAG / Workflow (eager) mode
-func c11Parallel(mode int) {
+func c11Parallel(mode int, streamH bool) {
 	ctx := context.Background()
 	vcfg("preempt", 2+2*vtier())
 	vcfg("race", 1)
@@ -56,12 +58,24 @@ func c11Parallel(mode int) {
 		})
 	}
 	pre := func(add int) GraphAddNodeOpt {
+		if streamH {
+			return WithStreamStatePreHandler(func(ctx context.Context, in *schema.StreamReader[map[string]any], s *c11State) (*schema.StreamReader[map[string]any], error) {
+				mon.section(s, add, false)
+				return in, nil
+			})
+		}
 		return WithStatePreHandler(func(ctx context.Context, in map[string]any, s *c11State) (map[string]any, error) {
 			mon.section(s, add, false)
 			return in, nil
 		})
 	}
 	post := func(add int) GraphAddNodeOpt {
+		if streamH {
+			return WithStreamStatePostHandler(func(ctx context.Context, out *schema.StreamReader[map[string]any], s *c11State) (*schema.StreamReader[map[string]any], error) {
+				mon.section(s, add, false)
+				return out, nil
+			})
+		}
 		return WithStatePostHandler(func(ctx context.Context, out map[string]any, s *c11State) (map[string]any, error) {
 			mon.section(s, add, false)
 			return out, nil
@@ -119,9 +133,12 @@ func c11Parallel(mode int) {
 	vassert(final == da+db+dp+dq+extra, "state updates made by pre-handlers, post-handlers and ProcessState are never lost when nodes run in parallel")
 }
 
-func VerifC11ParPregel()   { c11Parallel(0) }
-func VerifC11ParDAG()      { c11Parallel(1) }
-func VerifC11ParWorkflow() { c11Parallel(2) }
+func VerifC11ParPregel()   { c11Parallel(0, false) }
+func VerifC11ParDAG()      { c11Parallel(1, false) }
+func VerifC11ParWorkflow() { c11Parallel(2, false) }
+
+// the same with the stream forms of the state handlers (WithStreamStatePreHandler / WithStreamStatePostHandler)
+func VerifC11ParStreamHandlers() { c11Parallel(vchoose("mode", 3), true) }
 
 // (2) every run gets its own freshly generated state: sequential and overlapping runs
 func VerifC11PerRun() {
